@@ -1,0 +1,111 @@
+//! Plain-data snapshot of `ClientBehaviour` and `ClientConnectionHandler` (`--cfg beetswap_verif`).
+
+use blockstore::Blockstore;
+use cid::CidGeneric;
+use libp2p_identity::PeerId;
+use libp2p_swarm::ConnectionId;
+
+use super::{ClientBehaviour, ClientConnectionHandler, SendingState, SinkState};
+use crate::wantlist::verif::{WantlistSnapshot, WantlistStateSnapshot};
+
+#[derive(Debug, Clone, PartialEq)]
+pub struct PeerSnapshot<const S: usize> {
+    pub peer: PeerId,
+    pub established_connections: Vec<ConnectionId>,
+    pub sending_state: SendingState,
+    pub wantlist: WantlistStateSnapshot<S>,
+    pub send_full: bool,
+}
+
+#[derive(Debug, Clone, PartialEq)]
+pub struct Snapshot<const S: usize> {
+    pub queue_len: usize,
+    pub wantlist: WantlistSnapshot<S>,
+    pub peers: Vec<PeerSnapshot<S>>,
+    pub cid_to_queries: Vec<(CidGeneric<S>, Vec<u64>)>,
+    pub tasks_len: usize,
+    pub query_abort_handle: Vec<u64>,
+    pub next_query_id: u64,
+    pub new_blocks_len: usize,
+}
+
+pub(crate) fn snapshot<const S: usize, B>(c: &ClientBehaviour<S, B>) -> Snapshot<S>
+where
+    B: Blockstore + 'static,
+{
+    let mut peers: Vec<_> = c
+        .peers
+        .iter()
+        .map(|(peer, state)| {
+            let mut conns: Vec<_> = state.established_connections.iter().copied().collect();
+            conns.sort();
+            PeerSnapshot {
+                peer: *peer,
+                established_connections: conns,
+                sending_state: state.sending_state,
+                wantlist: crate::wantlist::verif::state_snapshot(&state.wantlist),
+                send_full: state.send_full,
+            }
+        })
+        .collect();
+    peers.sort_by_key(|p| p.peer.to_bytes());
+
+    let mut cid_to_queries: Vec<_> = c
+        .cid_to_queries
+        .iter()
+        .map(|(cid, qs)| (*cid, qs.iter().map(|q| q.0).collect::<Vec<_>>()))
+        .collect();
+    cid_to_queries.sort_by_key(|(cid, _)| cid.to_bytes());
+
+    let mut query_abort_handle: Vec<_> = c.query_abort_handle.keys().map(|q| q.0).collect();
+    query_abort_handle.sort();
+
+    Snapshot {
+        queue_len: c.queue.len(),
+        wantlist: crate::wantlist::verif::wantlist_snapshot(&c.wantlist),
+        peers,
+        cid_to_queries,
+        tasks_len: c.tasks.len(),
+        query_abort_handle,
+        next_query_id: c.next_query_id,
+        new_blocks_len: c.new_blocks.len(),
+    }
+}
+
+/// `QueryId` as a number
+pub fn query_id(id: crate::QueryId) -> u64 {
+    id.0
+}
+
+/// `QueryId` from a number (to call `cancel` with ids that were never issued)
+pub fn query_id_from(id: u64) -> crate::QueryId {
+    super::QueryId(id)
+}
+
+#[derive(Debug, Clone, PartialEq)]
+pub struct HandlerSnapshot {
+    pub queue_len: usize,
+    pub has_msg: bool,
+    /// 0 = None, 1 = Requested, 2 = Ready
+    pub sink_state: u8,
+    pub sending_state: SendingState,
+    pub closing: bool,
+    pub halted: bool,
+    pub has_timeout: bool,
+}
+
+pub(crate) fn handler_snapshot<const S: usize>(h: &ClientConnectionHandler<S>) -> HandlerSnapshot {
+    HandlerSnapshot {
+        queue_len: h.queue.len(),
+        has_msg: h.msg.is_some(),
+        sink_state: match h.sink_state {
+            SinkState::None => 0,
+            SinkState::Requested => 1,
+            SinkState::Ready(_) => 2,
+        },
+        sending_state: h.sending_state,
+        closing: h.closing,
+        halted: h.halted,
+        has_timeout: h.start_sending_timeout.is_some(),
+    }
+}
